@@ -26,6 +26,7 @@ def main():
     lines = []
     chains = []   # (key, [labels]) nested windows for the monotonicity check
     n_skipped = 0
+    one_sided = [0]
     for iso in sorted(table):
         if only and iso not in only.split(","):
             continue
@@ -49,6 +50,17 @@ def main():
                     a = rng.randint(0, steps - 1)
                     b = rng.randint(a + 1, steps + 4)
                     lines.append(genmon.dbd_line(table, iso, level, mode, (a / 64.0, b / 64.0), TOL))
+                    if rng.uniform() < (0.04 if quick else 1.0):
+                        # one-sided windows through the API (the other limit left NaN); each is nested in the full range
+                        lo_only = "dbd/%s/L%d/m%d/w%.6g-nan" % (iso, level, mode, a / 64.0)
+                        hi_only = "dbd/%s/L%d/m%d/wnan-%.6g" % (iso, level, mode, max(b, 1) / 64.0)
+                        lines.append(genmon.dbd_line(table, iso, level, mode, (a / 64.0, None), TOL))
+                        lines.append(genmon.dbd_line(table, iso, level, mode, (None, max(b, 1) / 64.0), TOL))
+                        full = "dbd/%s/L%d/m%d" % (iso, level, mode)
+                        both = full + "/w%.6g-%.6g" % (a / 64.0, b / 64.0)
+                        chains.append([full, lo_only, both])
+                        chains.append([full, hi_only, both])
+                        one_sided[0] += 2
                     if rng.uniform() < (0.06 if quick else 0.5):
                         # nested chain W1 > W2 > W3 (+ a degenerate-narrow one)
                         w1 = (max(0, a - 2) / 64.0, (b + 2) / 64.0)
@@ -96,7 +108,9 @@ def main():
             chk.violation(m["key"], "%s: %s [%d events; steering: %s]" % (r["config"], m["detail"], m["count"], m["steer"] or "-"),
                           {"config": r["config"], "cmd": exe, **m})
         ta = r["toallevents"]
-        if not (isinstance(ta, (int, float)) and ta >= 1.0 - 1e-12):
+        # (a window that covers the whole kinematic range gives a quotient of two quadratures of the same integral: 1 up to their
+        #  rounding, e.g. 0.99999999835 for Pb214 mode 13 with the window (-, 4.1875] on the unchanged tree)
+        if not (isinstance(ta, (int, float)) and ta >= 1.0 - 1e-6):
             chk.violation(r["config"] + "|toallevents<1", "%s: toallevents = %r" % (r["config"], ta), {"config": r["config"]})
         if not r["window"] and isinstance(ta, (int, float)) and abs(ta - 1.0) > 1e-9:
             chk.violation(r["config"] + "|toallevents-fullrange", "%s: full range but toallevents = %r" % (r["config"], ta), {"config": r["config"]})
@@ -132,6 +146,7 @@ def main():
         "configurations": accepted,
         "expensive_configurations_skipped_in_this_tier": n_skipped,
         "nested_window_chains_checked": nchains,
+        "one_sided_windows": one_sided[0],
         "largest_relative_decrease_along_a_chain": worst_step[0],
         "monotonicity_tolerance": 2e-2,
         "histogram_Evis_minus_Q_keV_neutrinoless": {k: hist[k] for k in sorted(hist, key=lambda x: int(x))},
